@@ -121,18 +121,23 @@ theorem litB_nil (a : Byte) (p : In) : litB (a :: p) [] = .err [] := by
 
 /-! ### comments -/
 
-theorem takeWhile_ne_nl' (c rest : In) (hc : c.contains 10 = false) :
-    (c ++ 10 :: rest).takeWhile (· != 10) = c := by
+/-- a comment text (no line break of either kind) followed by a line-end byte `e` (LF or CR): the comment reader
+    takes exactly the text -/
+theorem takeWhile_ne_nl' (c rest : In) (e : Byte) (he : e = 10 ∨ e = 13) (hc : c.contains 10 = false ∧ c.contains 13 = false) :
+    (c ++ e :: rest).takeWhile (fun x => x != 10 && x != 13) = c := by
   induction c with
-  | nil => simp
+  | nil => rcases he with rfl | rfl <;> simp
   | cons a t ih =>
-    simp only [List.contains_cons, Bool.or_eq_false_iff] at hc
-    have ha : (a != 10) = true := by
-      have := hc.1
-      simp only [beq_eq_false_iff_ne, ne_eq] at this
-      simp only [bne_iff_ne, ne_eq]
-      exact fun e => this e.symm
-    simp [List.takeWhile_cons, ha, ih hc.2]
+    obtain ⟨h10, h13⟩ := hc
+    simp only [List.contains_cons, Bool.or_eq_false_iff] at h10 h13
+    have ha : (a != 10 && a != 13) = true := by
+      have h1 := h10.1
+      have h2 := h13.1
+      simp only [beq_eq_false_iff_ne, ne_eq] at h1 h2
+      simp only [Bool.and_eq_true, bne_iff_ne, ne_eq]
+      exact ⟨fun e => h1 e.symm, fun e => h2 e.symm⟩
+    simp only [List.cons_append, List.takeWhile_cons, ha, if_true]
+    rw [ih ⟨h10.2, h13.2⟩]
 
 /-- a rendered comment line is read back as exactly its content; the parser stops at the line end -/
 theorem commentDef_render (c rest : In) (hok : commentOK c = true) :
@@ -152,7 +157,7 @@ theorem commentDef_render (c rest : In) (hok : commentOK c = true) :
       simp [List.dropWhile_cons, this]
   simp only [renderComment, commentDef, List.cons_append, List.nil_append, List.dropWhile_cons, beq_self_eq_true,
     Bool.true_or, if_true]
-  rw [hdrop, takeWhile_ne_nl' c rest hnl]
+  rw [hdrop, takeWhile_ne_nl' c rest 10 (Or.inl rfl) hnl]
   simp
 
 theorem commentDef_plain {i : In} (h : plainHead i = true) : commentDef i = .err i := by
